@@ -59,6 +59,11 @@ def parse_and_validate_assignment(indices, array_shape, value_shape):
             f"of shape {tuple(implied_shape)}"
         )
 
+    # ``reverse`` holds positions among the array's dimensions, but the value
+    # (and ``implied_shape``) only has the dimensions of the non-integer indices
+    kept = [i for i, index in enumerate(indices) if not isinstance(index, int)]
+    reverse = [kept.index(i) for i in reverse]
+
     # Set variables needed when creating the part of the assignment value
     offset = len(implied_shape) - value_ndim
     if offset >= 0:
